@@ -32,7 +32,8 @@ func main() {
 		"and the compiled program through the verif hook, each case in a worker child process with a 5 s limit; " +
 		"bounded-exhaustive stream: patterns of length<=4 over {a,b,.,%,[,],^,$,*,+,-,?,(,),1} x subjects of length<=4 over {a,b} x init in [-5,5] " +
 		"(quick: PRNG sample; thorough: all patterns of length<=3 exhaustively, length 4 sampled), grammar-generated longer patterns, malformed stream, " +
-		"gsub with string/number/table/function replacements and limits; " +
+		"gsub with string/number/table/function replacements and limits (half of the function replacements and 40 % of the gmatch loops run other pattern calls, one of them a caught pattern error, between the matches); " +
+		"back-reference stream: %N at every position relative to the captures (before the capture is opened, inside it, after it, non-existent, position capture; the %8/%9 boundary) and malformed tails, on subjects built from the pattern's own witness; " +
 		"non-trivial = the call raised no error, the pattern contains at least one pattern special and the subject is non-empty; distinct by Gallina term"
 	r := lib.NewRand(a.Seed)
 	pool := newPool()
